@@ -361,9 +361,8 @@ func hopIndexIn(t *core.Term, perRun bool) (string, string) {
 	t.Walk(func(x *core.Term) bool {
 		if x.Op == "index" && len(x.Args) == 2 && idx == "" {
 			idx = x.Args[1].Key()
-			if f := x.Args[0]; f.Op == "field" && f.Name == "Hops" && len(f.Args) == 1 {
-				owner = "run:" + f.Args[0].Key()
-			}
+			// the hop list of the run the helper works on: run.Hops, or the list itself handed over as a parameter
+			owner = "run:" + x.Args[0].Key()
 		}
 		return true
 	})
